@@ -1,4 +1,7 @@
 import Toq.Proofs.PPTDisc
+import Toq.Proofs.PPTDiscHier
+import Toq.Proofs.PPTDiscOpt
+import Toq.Model.PPTDiscHier
 import Toq.Properties.C10
 /-!
 # C12 — discrimination with PPT measurements: ordering, duality, invariances, certificate checkers
@@ -15,6 +18,25 @@ convention).  `pTf sys X` is the partial transpose of `X : Matrix (Fin (dA*dB)) 
 
 `IsPOVM`, `successProb`, `MinErrDualFeasible` and the denotations `ensStates`, `ensProbs`, `mats` are those
 of C10 (`Toq.Properties.C10`).
+
+Contents.  Algebra of the partial transpose; weak duality, PPT ≤ global; product, one-way LOCC and separable measurements are PPT
+(`product_povm_is_ppt`, `one_way_locc_is_ppt`); local-unitary and party invariance; soundness of the certificate checkers
+(`checkPPTPrimal_sound`, `checkPPTDual_sound`, `checkPPTUnambPrimal_sound`) and the programs they speak about
+(`primal_program_feasible_iff`, `dual_program_feasible_iff`); the four Bell states (`bell_ppt_value_eq_half`, `bell_ppt_isGreatest`);
+the PPT optimum is attained (`ppt_max_attained`), the duality gap and complementary slackness (`ppt_gap_eq`,
+`ppt_primal_eq_dual_iff`, `ppt_optimal_of_slackness`); `strategy = "unambig"` (`ppt_unamb_le_min_error`).
+The symmetric-extension hierarchy at EVERY level (`IsSymExtPOVM ℓ` = feasible set of level `ℓ + 1`): level one is the PPT program
+(`symExt_level_one_iff_ppt`, `symExtValues_level_one`, `symExtValue_level_one`), the feasible sets and values are non-increasing in
+the level (`symExt_level_succ`, `symExt_antitone`, `symExtValues_antitone`, `symExtValue_chain`), separable and one-way LOCC measurements
+are feasible at every level (`separable_povm_symExt`, `one_way_locc_symExt`; `separable_meas_feasible` is the older statement for
+levels 1 and 2 on index triples), every prior ≤ value ≤ PPT value ≤ 1 (`symExtValue_chain`), every PPT dual certificate bounds
+every level (`symExt_le_checked_ppt_dual`).  Argument handling (`pptDispatch_cases`, `symExtDims_*`, `symExt_shape`).
+
+Not proved (cited / certified per instance): strong duality of the PPT program for every ensemble (Slater: `M_i = 1/k` is strictly
+feasible; per instance the harness certifies `hi − lo ≤ 10⁻⁴`, and `ppt_optimal_of_slackness` turns any exactly slack pair into a proof);
+attainment of the hierarchy values for `ℓ ≥ 1` (the values are suprema); that the flattened-index expressions of the mirror model
+`symExtExprs` are the index-tuple constraints `SymExtAt` (compared with the code's expressions on every run); PPT = separable on
+`2 ⊗ 2`, `2 ⊗ 3` (Horodecki), used by the harness only for the one-sided check level 2 ≥ PPT value.
 -/
 
 open Matrix
@@ -378,5 +400,531 @@ example : checkPPTDual 1 ens23 (d6 #[3/8, 3/8, 1/16, 1/16, 1/16, 0]) [d6 #[0, 0,
     = some (15/16) := by decide +kernel
 
 end Example23
+
+/-! ## One-way LOCC measurements are PPT measurements
+
+Alice measures a POVM `{A_a}`; Bob, told her outcome `a`, measures a POVM `{B_{b|a}}` that may depend on it; the pair
+`(a, b)` is decoded to a guess `g(a, b)`.  The measurement operators are `M_i = Σ_{(a,b) : g(a,b) = i} A_a ⊗ B_{b|a}`. -/
+
+/-- Every one-way LOCC measurement (any local POVM of the first party, any conditional POVMs of the second party, any
+decoding of the outcome pairs) is a PPT measurement; product POVMs are the case where `B` does not depend on `a`. -/
+theorem one_way_locc_is_ppt {α β : Type*} [Fintype α] [Fintype β] (sys : Nat)
+    (A : α → Matrix (Fin dA) (Fin dA) ℂ) (B : α → β → Matrix (Fin dB) (Fin dB) ℂ)
+    (hA : ∀ a, (A a).PosSemidef) (hAsum : ∑ a, A a = 1)
+    (hB : ∀ a b, (B a b).PosSemidef) (hBsum : ∀ a, ∑ b, B a b = 1) (g : α × β → Fin k) :
+    IsPPTPOVM sys (fun i => ∑ ab : α × β, kronF (if g ab = i then A ab.1 else 0) (B ab.1 ab.2)) := by
+  refine product_povm_is_ppt sys (fun i ab => if g ab = i then A ab.1 else 0) (fun _ ab => B ab.1 ab.2)
+    (fun i ab => ?_) (fun _ ab => hB ab.1 ab.2) ?_
+  · split
+    · exact hA ab.1
+    · exact Matrix.PosSemidef.zero
+  · rw [Finset.sum_comm]
+    have h1 : ∀ ab : α × β, ∑ i : Fin k, kronF (if g ab = i then A ab.1 else 0) (B ab.1 ab.2)
+        = kronF (A ab.1) (B ab.1 ab.2) := by
+      intro ab
+      rw [Finset.sum_eq_single (g ab)]
+      · rw [if_pos rfl]
+      · intro i _ hi
+        rw [if_neg (Ne.symm hi), kronF_zero_left]
+      · simp
+    simp only [h1]
+    rw [Fintype.sum_prod_type]
+    simp only [← kronF_sum_right, hBsum]
+    rw [← kronF_sum_left, hAsum, kronF_one]
+
+/-- Hence every accepted PPT dual certificate bounds the success probability of every one-way LOCC measurement. -/
+theorem one_way_locc_le_ppt_bound {α β : Type*} [Fintype α] [Fintype β] (sys : Nat) (ens : Ensemble (dA * dB))
+    (Y : EMat (dA * dB) (dA * dB)) (Q LQ LS : List (EMat (dA * dB) (dA * dB))) (hi : Rat)
+    (h : checkPPTDual sys ens Y Q LQ LS = some hi)
+    (A : α → Matrix (Fin dA) (Fin dA) ℂ) (B : α → β → Matrix (Fin dB) (Fin dB) ℂ)
+    (hA : ∀ a, (A a).PosSemidef) (hAsum : ∑ a, A a = 1)
+    (hB : ∀ a b, (B a b).PosSemidef) (hBsum : ∀ a, ∑ b, B a b = 1) (g : α × β → Fin ens.size) :
+    successProb (ensStates ens) (ensProbs ens)
+      (fun i => ∑ ab : α × β, kronF (if g ab = i then A ab.1 else 0) (B ab.1 ab.2)) ≤ (hi : ℝ) :=
+  checkPPTDual_sound sys ens Y Q LQ LS hi h _ (one_way_locc_is_ppt sys A B hA hAsum hB hBsum g)
+
+/-! ## The PPT optimum: value set, bounds, attainment, complementary slackness -/
+
+/-- the set of success probabilities attained by PPT measurements; the PPT value is its supremum (a maximum, see
+`ppt_max_attained`) -/
+def pptValues (sys : Nat) (ρ : Fin k → Matrix (Fin (dA * dB)) (Fin (dA * dB)) ℂ) (p : Fin k → ℝ) : Set ℝ :=
+  {v | ∃ M : Fin k → Matrix (Fin (dA * dB)) (Fin (dA * dB)) ℂ, IsPPTPOVM sys M ∧ successProb ρ p M = v}
+
+/-- The set of attainable values does not depend on the transposed party. -/
+theorem pptValues_party_irrelevant (s s' : Nat) (ρ : Fin k → Matrix (Fin (dA * dB)) (Fin (dA * dB)) ℂ)
+    (p : Fin k → ℝ) : pptValues s ρ p = pptValues s' ρ p := by
+  ext v
+  exact ⟨fun ⟨M, hM, hv⟩ => ⟨M, (isPPTPOVM_party_irrelevant s s' M).mp hM, hv⟩,
+    fun ⟨M, hM, hv⟩ => ⟨M, (isPPTPOVM_party_irrelevant s s' M).mpr hM, hv⟩⟩
+
+/-- Every value attained by a PPT measurement is attained by a measurement: PPT value ≤ global value as sets. -/
+theorem pptValues_subset_global (sys : Nat) (ρ : Fin k → Matrix (Fin (dA * dB)) (Fin (dA * dB)) ℂ)
+    (p : Fin k → ℝ) : pptValues sys ρ p ⊆ minErrValues ρ p :=
+  fun _ ⟨M, hM, hv⟩ => ⟨M, hM.1, hv⟩
+
+/-- The measurement "always answer `j`" is a PPT measurement. -/
+theorem const_povm_is_ppt (sys : Nat) (j : Fin k) :
+    IsPPTPOVM sys (meConstPovm (ι := Fin (dA * dB)) j) := by
+  refine ⟨⟨meConstPovm_psd j, meConstPovm_sum j⟩, fun i => ?_⟩
+  unfold meConstPovm
+  split
+  · rw [pTf_one]; exact Matrix.PosSemidef.one
+  · rw [pTf_zero]; exact Matrix.PosSemidef.zero
+
+/-- **At least every prior**: for a unit-trace state `ρ_j` the PPT measurement "always answer `j`" succeeds with
+probability `p_j`. -/
+theorem ppt_ge_prior (sys : Nat) (ρ : Fin k → Matrix (Fin (dA * dB)) (Fin (dA * dB)) ℂ) (p : Fin k → ℝ)
+    (j : Fin k) (hj : (ρ j).trace = 1) : p j ∈ pptValues sys ρ p := by
+  refine ⟨meConstPovm j, const_povm_is_ppt sys j, ?_⟩
+  unfold successProb
+  rw [meConstPovm_value, hj]
+  simp
+
+/-- **At most one** for density operators and a probability vector. -/
+theorem ppt_le_one (sys : Nat) (ρ : Fin k → Matrix (Fin (dA * dB)) (Fin (dA * dB)) ℂ) (p : Fin k → ℝ)
+    (hρ : ∀ i, (ρ i).PosSemidef) (htr : ∀ i, (ρ i).trace = 1) (hp : ∀ i, 0 ≤ p i) (hsum : ∑ i, p i = 1) :
+    ∀ v ∈ pptValues sys ρ p, v ≤ 1 := by
+  rintro v ⟨M, hM, rfl⟩
+  exact minErr_le_one ρ p M hρ htr hp hsum hM.1
+
+/-- **The PPT optimum is attained**: the PPT measurements form a compact set, so some PPT measurement succeeds with the
+largest probability (for at least one state). -/
+theorem ppt_max_attained (sys : Nat) (hk : 0 < k) (ρ : Fin k → Matrix (Fin (dA * dB)) (Fin (dA * dB)) ℂ)
+    (p : Fin k → ℝ) :
+    ∃ M : Fin k → Matrix (Fin (dA * dB)) (Fin (dA * dB)) ℂ, IsPPTPOVM sys M ∧
+      IsGreatest (pptValues sys ρ p) (successProb ρ p M) := by
+  have : Nonempty (Fin k) := ⟨⟨0, hk⟩⟩
+  obtain ⟨M, ⟨h1, h2, h3⟩, hmax⟩ := ppt_max_attained_gen (pTf sys) (continuous_pTf sys)
+    (by rw [pTf_zero]; exact Matrix.PosSemidef.zero) (by rw [pTf_one]; exact Matrix.PosSemidef.one) ρ p
+  refine ⟨M, ⟨⟨h1, h2⟩, h3⟩, ⟨M, ⟨⟨h1, h2⟩, h3⟩, rfl⟩, ?_⟩
+  rintro v ⟨M', hM', rfl⟩
+  exact hmax M' hM'.1.1 hM'.1.2 hM'.2
+
+/-- **Duality gap.**  For a measurement `M` and any `(Y, Q)`:
+`Re tr Y − P_succ(M) = Σ_i Re tr((Y − p_i ρ_i − T(Q_i)) M_i) + Σ_i Re tr(Q_i T(M_i))`. -/
+theorem ppt_gap_eq (sys : Nat) (ρ : Fin k → Matrix (Fin (dA * dB)) (Fin (dA * dB)) ℂ) (p : Fin k → ℝ)
+    (M Q : Fin k → Matrix (Fin (dA * dB)) (Fin (dA * dB)) ℂ) (Y : Matrix (Fin (dA * dB)) (Fin (dA * dB)) ℂ)
+    (hsum : ∑ i, M i = 1) :
+    Y.trace.re - successProb ρ p M
+      = ∑ i, ((Y - (p i : ℂ) • ρ i - pTf sys (Q i)) * M i).trace.re + ∑ i, (Q i * pTf sys (M i)).trace.re :=
+  ppt_gap_gen (pTf sys) (pT_trace_adjoint sys) ρ p M Q Y hsum
+
+/-- **Primal and dual agree exactly under complementary slackness.**  For a PPT measurement `M` and a dual-feasible
+`(Y, Q)`: the success probability of `M` equals `Re tr Y` iff `(Y − p_i ρ_i − T(Q_i)) M_i = 0` and `Q_i T(M_i) = 0`
+for every `i`. -/
+theorem ppt_primal_eq_dual_iff (sys : Nat) (ρ : Fin k → Matrix (Fin (dA * dB)) (Fin (dA * dB)) ℂ)
+    (p : Fin k → ℝ) (M Q : Fin k → Matrix (Fin (dA * dB)) (Fin (dA * dB)) ℂ)
+    (Y : Matrix (Fin (dA * dB)) (Fin (dA * dB)) ℂ) (hM : IsPPTPOVM sys M) (hYQ : PPTDualFeasible sys ρ p Y Q) :
+    successProb ρ p M = Y.trace.re ↔
+      ∀ i, (Y - (p i : ℂ) • ρ i - pTf sys (Q i)) * M i = 0 ∧ Q i * pTf sys (M i) = 0 :=
+  ppt_gap_zero_iff_gen (pTf sys) (pT_trace_adjoint sys) ρ p M Q Y hM.1.1 hM.1.2 hM.2
+    (fun i => (hYQ i).1) (fun i => (hYQ i).2)
+
+/-- **Optimality certificate.**  If a PPT measurement and a dual-feasible point satisfy complementary slackness, then
+`Re tr Y` is the greatest attained PPT value (attained by `M`) and no dual-feasible point has a smaller trace: the primal
+and the dual formulation have the same optimal value. -/
+theorem ppt_optimal_of_slackness (sys : Nat) (ρ : Fin k → Matrix (Fin (dA * dB)) (Fin (dA * dB)) ℂ)
+    (p : Fin k → ℝ) (M Q : Fin k → Matrix (Fin (dA * dB)) (Fin (dA * dB)) ℂ)
+    (Y : Matrix (Fin (dA * dB)) (Fin (dA * dB)) ℂ) (hM : IsPPTPOVM sys M) (hYQ : PPTDualFeasible sys ρ p Y Q)
+    (hs : ∀ i, (Y - (p i : ℂ) • ρ i - pTf sys (Q i)) * M i = 0 ∧ Q i * pTf sys (M i) = 0) :
+    IsGreatest (pptValues sys ρ p) Y.trace.re ∧
+      ∀ (Y' : Matrix (Fin (dA * dB)) (Fin (dA * dB)) ℂ) (Q' : Fin k → Matrix (Fin (dA * dB)) (Fin (dA * dB)) ℂ),
+        PPTDualFeasible sys ρ p Y' Q' → Y.trace.re ≤ Y'.trace.re := by
+  have hv := (ppt_primal_eq_dual_iff sys ρ p M Q Y hM hYQ).mpr hs
+  refine ⟨⟨⟨M, hM, hv⟩, ?_⟩, fun Y' Q' h' => ?_⟩
+  · rintro v ⟨M', hM', rfl⟩
+    exact ppt_weak_duality sys ρ p M' Y Q hM' hYQ
+  · rw [← hv]
+    exact ppt_weak_duality sys ρ p M Y' Q' hM h'
+
+/-- Restatement of `bell_ppt_value_eq_half`: `1/2` is the greatest value PPT measurements attain on the four Bell states. -/
+theorem bell_ppt_isGreatest (sys : Nat) :
+    IsGreatest (pptValues (dA := 2) (dB := 2) sys (ensStates bellEns) (ensProbs bellEns)) (1 / 2) := by
+  obtain ⟨⟨M, hM, hv⟩, hle⟩ := bell_ppt_value_eq_half sys
+  refine ⟨⟨M, hM, hv⟩, ?_⟩
+  rintro v ⟨M', hM', rfl⟩
+  exact hle M' hM'
+
+/-! ## The symmetric-extension hierarchy at every level
+
+`SymExtAt ℓ` (`Toq/Proofs/PPTDiscHier.lean`) is the constraint set `symmetric_extension_hierarchy(level = ℓ + 1, dim = [dA, dB])` puts on
+one measurement operator, read on index pairs `(x, y)` through `toP` (composite index `x·dB + y`): an extension to
+`X ⊗ Y^{⊗(ℓ+1)}` that is PSD, has the operator as its marginal on `X ⊗ Y` (all copies but the first traced out), is fixed by
+the projector onto the symmetric subspace of the copies on both sides, and has PSD partial transposes on `X` and on each of the
+copies `2 … ℓ + 1`. -/
+
+/-- the feasible set of `symmetric_extension_hierarchy` at level `ℓ + 1` -/
+def IsSymExtPOVM (ℓ : Nat) (M : Fin k → Matrix (Fin (dA * dB)) (Fin (dA * dB)) ℂ) : Prop :=
+  IsPOVM M ∧ ∀ i, SymExtAt ℓ (toP (M i))
+
+/-- the values attained at level `ℓ + 1`; the hierarchy value is the supremum -/
+def symExtValues (ℓ : Nat) (ρ : Fin k → Matrix (Fin (dA * dB)) (Fin (dA * dB)) ℂ) (p : Fin k → ℝ) : Set ℝ :=
+  {v | ∃ M : Fin k → Matrix (Fin (dA * dB)) (Fin (dA * dB)) ℂ, IsSymExtPOVM ℓ M ∧ successProb ρ p M = v}
+
+/-- the PPT value -/
+noncomputable def pptValue (sys : Nat) (ρ : Fin k → Matrix (Fin (dA * dB)) (Fin (dA * dB)) ℂ) (p : Fin k → ℝ) : ℝ :=
+  sSup (pptValues sys ρ p)
+
+/-- the value of the hierarchy at level `ℓ + 1` -/
+noncomputable def symExtValue (ℓ : Nat) (ρ : Fin k → Matrix (Fin (dA * dB)) (Fin (dA * dB)) ℂ) (p : Fin k → ℝ) : ℝ :=
+  sSup (symExtValues ℓ ρ p)
+
+/-- The support constraint of the hierarchy uses the projector that C18 proves `symmetric_projection(dB, L)` to be. -/
+theorem symExt_projector_is_C18 (d L : Nat) :
+    symPC d L = (Toq.Combinat.Spec.symSpec d L).map (fun q : ℚ => (q : ℂ)) :=
+  symPC_eq_symSpec d L
+
+/-- **Level one is the PPT program**: the level-1 feasible set of the hierarchy is the set of PPT measurements
+(whichever party the PPT program transposes). -/
+theorem symExt_level_one_iff_ppt (sys : Nat) (M : Fin k → Matrix (Fin (dA * dB)) (Fin (dA * dB)) ℂ) :
+    IsSymExtPOVM 0 M ↔ IsPPTPOVM sys M := by
+  have key : ∀ X : Matrix (Fin (dA * dB)) (Fin (dA * dB)) ℂ,
+      (pTf sys X).PosSemidef ↔ (pTAp (toP X)).PosSemidef := by
+    intro X
+    rw [ppt_party_irrelevant sys 0]
+    have : pTf 0 X = ofP (pTAp (toP X)) := by simp [pTf, pTAf]
+    rw [this, ofP_posSemidef]
+  constructor
+  · rintro ⟨hP, hS⟩
+    exact ⟨hP, fun i => (key _).mpr ((symExtAt_zero_iff _).mp (hS i)).2⟩
+  · rintro ⟨hP, hT⟩
+    exact ⟨hP, fun i => (symExtAt_zero_iff _).mpr ⟨toP_posSemidef.mpr (hP.1 i), (key _).mp (hT i)⟩⟩
+
+/-- **One level down**: every feasible point of level `ℓ + 2` (trace out the last copy of its extensions) is a feasible
+point of level `ℓ + 1` with the same measurement, hence the same objective value. -/
+theorem symExt_level_succ (ℓ : Nat) (M : Fin k → Matrix (Fin (dA * dB)) (Fin (dA * dB)) ℂ)
+    (h : IsSymExtPOVM (ℓ + 1) M) : IsSymExtPOVM ℓ M :=
+  ⟨h.1, fun i => (h.2 i).pred⟩
+
+/-- The feasible sets shrink with the level. -/
+theorem symExt_antitone {ℓ ℓ' : Nat} (hl : ℓ ≤ ℓ') (M : Fin k → Matrix (Fin (dA * dB)) (Fin (dA * dB)) ℂ)
+    (h : IsSymExtPOVM ℓ' M) : IsSymExtPOVM ℓ M :=
+  ⟨h.1, fun i => (h.2 i).of_le hl⟩
+
+/-- Every measurement feasible at some level of the hierarchy is a PPT measurement. -/
+theorem symExt_is_ppt (ℓ sys : Nat) (M : Fin k → Matrix (Fin (dA * dB)) (Fin (dA * dB)) ℂ)
+    (h : IsSymExtPOVM ℓ M) : IsPPTPOVM sys M :=
+  (symExt_level_one_iff_ppt sys M).mp (symExt_antitone (Nat.zero_le ℓ) M h)
+
+/-- **Level-one value = PPT value** (equal sets of attained values, hence equal suprema). -/
+theorem symExtValues_level_one (sys : Nat) (ρ : Fin k → Matrix (Fin (dA * dB)) (Fin (dA * dB)) ℂ)
+    (p : Fin k → ℝ) : symExtValues 0 ρ p = pptValues sys ρ p := by
+  ext v
+  exact ⟨fun ⟨M, hM, hv⟩ => ⟨M, (symExt_level_one_iff_ppt sys M).mp hM, hv⟩,
+    fun ⟨M, hM, hv⟩ => ⟨M, (symExt_level_one_iff_ppt sys M).mpr hM, hv⟩⟩
+
+/-- The hierarchy value at level one is the PPT value. -/
+theorem symExtValue_level_one (sys : Nat) (ρ : Fin k → Matrix (Fin (dA * dB)) (Fin (dA * dB)) ℂ)
+    (p : Fin k → ℝ) : symExtValue 0 ρ p = pptValue sys ρ p := by
+  unfold symExtValue pptValue
+  rw [symExtValues_level_one sys]
+
+/-- **Non-increasing in the level** (sets of attained values). -/
+theorem symExtValues_antitone {ℓ ℓ' : Nat} (hl : ℓ ≤ ℓ') (ρ : Fin k → Matrix (Fin (dA * dB)) (Fin (dA * dB)) ℂ)
+    (p : Fin k → ℝ) : symExtValues ℓ' ρ p ⊆ symExtValues ℓ ρ p :=
+  fun _ ⟨M, hM, hv⟩ => ⟨M, symExt_antitone hl M hM, hv⟩
+
+/-- **Separable measurements are feasible at every level**: a POVM whose elements are sums of products `A ⊗ B` of positive
+semidefinite operators (all LOCC measurements are of this form) satisfies the constraints of every level. -/
+theorem separable_povm_symExt {ι : Type*} [Fintype ι] (ℓ : Nat)
+    (A : Fin k → ι → Matrix (Fin dA) (Fin dA) ℂ) (B : Fin k → ι → Matrix (Fin dB) (Fin dB) ℂ)
+    (hA : ∀ i j, (A i j).PosSemidef) (hB : ∀ i j, (B i j).PosSemidef)
+    (hsum : ∑ i, ∑ j, kronF (A i j) (B i j) = 1) :
+    IsSymExtPOVM ℓ (fun i => ∑ j, kronF (A i j) (B i j)) := by
+  refine ⟨(product_povm_is_ppt 0 A B hA hB hsum).1, fun i => ?_⟩
+  rw [toP_sum]
+  simp only [toP_kronF]
+  exact symExtAt_sum _ _ fun j _ => symExtAt_kron ℓ (hA i j) (hB i j)
+
+/-- Hence the value of every explicit separable measurement is attained at every level: hierarchy value ≥ separable value. -/
+theorem separable_value_mem_symExtValues {ι : Type*} [Fintype ι] (ℓ : Nat)
+    (ρ : Fin k → Matrix (Fin (dA * dB)) (Fin (dA * dB)) ℂ) (p : Fin k → ℝ)
+    (A : Fin k → ι → Matrix (Fin dA) (Fin dA) ℂ) (B : Fin k → ι → Matrix (Fin dB) (Fin dB) ℂ)
+    (hA : ∀ i j, (A i j).PosSemidef) (hB : ∀ i j, (B i j).PosSemidef)
+    (hsum : ∑ i, ∑ j, kronF (A i j) (B i j) = 1) :
+    successProb ρ p (fun i => ∑ j, kronF (A i j) (B i j)) ∈ symExtValues ℓ ρ p :=
+  ⟨_, separable_povm_symExt ℓ A B hA hB hsum, rfl⟩
+
+/-- One-way LOCC measurements are feasible at every level of the hierarchy. -/
+theorem one_way_locc_symExt {α β : Type*} [Fintype α] [Fintype β] (ℓ : Nat)
+    (A : α → Matrix (Fin dA) (Fin dA) ℂ) (B : α → β → Matrix (Fin dB) (Fin dB) ℂ)
+    (hA : ∀ a, (A a).PosSemidef) (hAsum : ∑ a, A a = 1)
+    (hB : ∀ a b, (B a b).PosSemidef) (hBsum : ∀ a, ∑ b, B a b = 1) (g : α × β → Fin k) :
+    IsSymExtPOVM ℓ (fun i => ∑ ab : α × β, kronF (if g ab = i then A ab.1 else 0) (B ab.1 ab.2)) := by
+  refine separable_povm_symExt ℓ (fun i ab => if g ab = i then A ab.1 else 0) (fun _ ab => B ab.1 ab.2)
+    (fun i ab => ?_) (fun _ ab => hB ab.1 ab.2)
+    (one_way_locc_is_ppt 0 A B hA hAsum hB hBsum g).1.2
+  split
+  · exact hA ab.1
+  · exact Matrix.PosSemidef.zero
+
+/-- The measurement "always answer `j`" is feasible at every level. -/
+theorem const_povm_symExt (ℓ : Nat) (j : Fin k) : IsSymExtPOVM ℓ (meConstPovm (ι := Fin (dA * dB)) j) := by
+  refine ⟨⟨meConstPovm_psd j, meConstPovm_sum j⟩, fun i => ?_⟩
+  unfold meConstPovm
+  split
+  · rw [← kronF_one, toP_kronF]
+    exact symExtAt_kron ℓ Matrix.PosSemidef.one Matrix.PosSemidef.one
+  · have : toP (0 : Matrix (Fin (dA * dB)) (Fin (dA * dB)) ℂ) = 0 := rfl
+    rw [this]; exact symExtAt_zero' ℓ
+
+/-- **At least every prior, at every level.** -/
+theorem symExt_ge_prior (ℓ : Nat) (ρ : Fin k → Matrix (Fin (dA * dB)) (Fin (dA * dB)) ℂ) (p : Fin k → ℝ)
+    (j : Fin k) (hj : (ρ j).trace = 1) : p j ∈ symExtValues ℓ ρ p := by
+  refine ⟨meConstPovm j, const_povm_symExt ℓ j, ?_⟩
+  unfold successProb
+  rw [meConstPovm_value, hj]
+  simp
+
+/-- Every PPT dual point bounds every level of the hierarchy (weak duality through level one). -/
+theorem symExt_le_ppt_dual (ℓ sys : Nat) (ρ : Fin k → Matrix (Fin (dA * dB)) (Fin (dA * dB)) ℂ) (p : Fin k → ℝ)
+    (M : Fin k → Matrix (Fin (dA * dB)) (Fin (dA * dB)) ℂ) (Y : Matrix (Fin (dA * dB)) (Fin (dA * dB)) ℂ)
+    (Q : Fin k → Matrix (Fin (dA * dB)) (Fin (dA * dB)) ℂ)
+    (hM : IsSymExtPOVM ℓ M) (hYQ : PPTDualFeasible sys ρ p Y Q) : successProb ρ p M ≤ Y.trace.re :=
+  ppt_weak_duality sys ρ p M Y Q (symExt_is_ppt ℓ sys M hM) hYQ
+
+/-- An accepted PPT dual certificate bounds the hierarchy at every level (this is what the harness uses for level 2). -/
+theorem symExt_le_checked_ppt_dual (ℓ sys : Nat) (ens : Ensemble (dA * dB)) (Y : EMat (dA * dB) (dA * dB))
+    (Q LQ LS : List (EMat (dA * dB) (dA * dB))) (hi : Rat) (h : checkPPTDual sys ens Y Q LQ LS = some hi)
+    (M : Fin ens.size → Matrix (Fin (dA * dB)) (Fin (dA * dB)) ℂ) (hM : IsSymExtPOVM ℓ M) :
+    successProb (ensStates ens) (ensProbs ens) M ≤ (hi : ℝ) :=
+  checkPPTDual_sound sys ens Y Q LQ LS hi h M (symExt_is_ppt ℓ sys M hM)
+
+/-- For density operators and a probability vector: every prior `≤` hierarchy value at level `ℓ' + 1` `≤` hierarchy value
+at level `ℓ + 1` (`ℓ ≤ ℓ'`) `≤` PPT value `≤ 1`. -/
+theorem symExtValue_chain {ℓ ℓ' : Nat} (hl : ℓ ≤ ℓ') (sys : Nat)
+    (ρ : Fin k → Matrix (Fin (dA * dB)) (Fin (dA * dB)) ℂ) (p : Fin k → ℝ)
+    (hρ : ∀ i, (ρ i).PosSemidef) (htr : ∀ i, (ρ i).trace = 1) (hp : ∀ i, 0 ≤ p i) (hsum : ∑ i, p i = 1)
+    (j : Fin k) :
+    p j ≤ symExtValue ℓ' ρ p ∧ symExtValue ℓ' ρ p ≤ symExtValue ℓ ρ p ∧
+      symExtValue ℓ ρ p ≤ pptValue sys ρ p ∧ pptValue sys ρ p ≤ 1 := by
+  have hb0 : BddAbove (pptValues sys ρ p) := ⟨1, ppt_le_one sys ρ p hρ htr hp hsum⟩
+  have hsub : ∀ n, symExtValues n ρ p ⊆ pptValues sys ρ p := by
+    intro n
+    rw [← symExtValues_level_one sys]
+    exact symExtValues_antitone (Nat.zero_le n) ρ p
+  have hb : ∀ n, BddAbove (symExtValues n ρ p) := fun n => hb0.mono (hsub n)
+  have hne : ∀ n, (symExtValues n ρ p).Nonempty := fun n => ⟨p j, symExt_ge_prior n ρ p j (htr j)⟩
+  refine ⟨le_csSup (hb ℓ') (symExt_ge_prior ℓ' ρ p j (htr j)),
+    csSup_le_csSup (hb ℓ) (hne ℓ') (symExtValues_antitone hl ρ p),
+    csSup_le_csSup hb0 (hne ℓ) (hsub ℓ), csSup_le (⟨p j, ppt_ge_prior sys ρ p j (htr j)⟩) ?_⟩
+  exact ppt_le_one sys ρ p hρ htr hp hsum
+
+/-- The PPT value is at most the global minimum-error value (suprema of the attained values). -/
+theorem pptValue_le_global (sys : Nat) (ρ : Fin k → Matrix (Fin (dA * dB)) (Fin (dA * dB)) ℂ) (p : Fin k → ℝ)
+    (hρ : ∀ i, (ρ i).PosSemidef) (htr : ∀ i, (ρ i).trace = 1) (hp : ∀ i, 0 ≤ p i) (hsum : ∑ i, p i = 1)
+    (hk : 0 < k) : pptValue sys ρ p ≤ sSup (minErrValues ρ p) := by
+  refine csSup_le_csSup ⟨1, ?_⟩ ⟨p ⟨0, hk⟩, ppt_ge_prior sys ρ p _ (htr _)⟩ (pptValues_subset_global sys ρ p)
+  rintro v ⟨M, hM, rfl⟩
+  exact minErr_le_one ρ p M hρ htr hp hsum hM
+
+/-- Hypotheses of the hierarchy theorems are satisfiable on a non-trivial instance: the computational-basis measurement of two
+qubits (a product measurement) is feasible at level 3. -/
+example : IsSymExtPOVM (dA := 2) (dB := 2) (k := 2) 2
+    (fun i => ∑ j : Fin 2, kronF (Matrix.diagonal fun a => if a = i then 1 else 0)
+      (Matrix.diagonal fun b => if b = j then 1 else 0)) := by
+  refine separable_povm_symExt 2 _ _ (fun i j => ?_) (fun i j => ?_) ?_
+  · exact Matrix.PosSemidef.diagonal fun a => by split <;> simp
+  · exact Matrix.PosSemidef.diagonal fun a => by split <;> simp
+  · simp only [← kronF_sum_right, ← kronF_sum_left]
+    have h1 : ∑ j : Fin 2, Matrix.diagonal (fun b : Fin 2 => if b = j then (1 : ℂ) else 0) = 1 := by
+      ext a b; fin_cases a <;> fin_cases b <;> simp [Matrix.sum_apply, Matrix.diagonal]
+    rw [h1, kronF_one]
+
+/-! ## The programs the code hands to the solver (`Toq.PPTDisc.primalPsdExprs`, `primalEqResidual`, `dualPsdExprs`)
+
+The driver operation `c12_ppt_program` evaluates these expression lists at exact points; the harness compares them with the
+constraint expressions of the picos programs `ppt_distinguishability` builds (captured at `Problem.solve`). -/
+
+/-- The constraint expressions of the modelled primal program describe exactly the PPT measurements: every operator of
+`primalPsdExprs` is positive semidefinite and `primalEqResidual` vanishes iff `M` is a PPT measurement. -/
+theorem primal_program_feasible_iff (sys : Nat) (M : Fin k → EMat (dA * dB) (dA * dB)) :
+    ((∀ E ∈ primalPsdExprs sys k M, E.toM.PosSemidef) ∧ (primalEqResidual k M).toM = 0) ↔
+      IsPPTPOVM sys (fun i => (M i).toM) := by
+  unfold primalPsdExprs primalEqResidual IsPPTPOVM IsPOVM
+  rw [EMat.toM_sub, toM_sumMats, EMat.toM_one, sub_eq_zero]
+  constructor
+  · rintro ⟨h, hs⟩
+    refine ⟨⟨fun i => h _ (List.mem_append_left _ (List.mem_map.mpr ⟨i, List.mem_finRange i, rfl⟩)), hs⟩, fun i => ?_⟩
+    rw [← toM_pT]
+    exact h _ (List.mem_append_right _ (List.mem_map.mpr ⟨i, List.mem_finRange i, rfl⟩))
+  · rintro ⟨⟨h1, hs⟩, h2⟩
+    refine ⟨fun E hE => ?_, hs⟩
+    rcases List.mem_append.mp hE with hE | hE
+    · obtain ⟨i, -, rfl⟩ := List.mem_map.mp hE
+      exact h1 i
+    · obtain ⟨i, -, rfl⟩ := List.mem_map.mp hE
+      rw [toM_pT]; exact h2 i
+
+/-- The constraint expressions of the modelled dual program describe exactly the dual-feasible points. -/
+theorem dual_program_feasible_iff (sys : Nat) (ρ : Fin k → EMat (dA * dB) (dA * dB)) (p : Fin k → Rat)
+    (Y : EMat (dA * dB) (dA * dB)) (Q : Fin k → EMat (dA * dB) (dA * dB)) :
+    (∀ E ∈ dualPsdExprs sys k ρ p Y Q, E.toM.PosSemidef) ↔
+      PPTDualFeasible sys (fun i => (ρ i).toM) (fun i => ((p i : Rat) : ℝ)) Y.toM (fun i => (Q i).toM) := by
+  unfold dualPsdExprs PPTDualFeasible
+  have hs : ∀ i, (dualSlack sys k ρ p Y Q i).toM
+      = Y.toM - ((((p i : Rat) : ℝ)) : ℂ) • (ρ i).toM - pTf sys (Q i).toM := by
+    intro i
+    rw [dualSlack, EMat.toM_sub, EMat.toM_sub, EMat.toM_smul, toM_pT]
+  constructor
+  · intro h i
+    refine ⟨h _ (List.mem_append_right _ (List.mem_map.mpr ⟨i, List.mem_finRange i, rfl⟩)), ?_⟩
+    rw [← hs]
+    exact h _ (List.mem_append_left _ (List.mem_map.mpr ⟨i, List.mem_finRange i, rfl⟩))
+  · intro h E hE
+    rcases List.mem_append.mp hE with hE | hE
+    · obtain ⟨i, -, rfl⟩ := List.mem_map.mp hE
+      rw [hs]; exact (h i).2
+    · obtain ⟨i, -, rfl⟩ := List.mem_map.mp hE
+      exact (h i).1
+
+/-! ## `strategy = "unambig"`: unambiguous discrimination with PPT measurements (primal form) -/
+
+/-- `M_0 … M_{k-1}, M_k` is a PPT measurement that never names a wrong state: `tr(p_j ρ_j M_i) = 0` for `i ≠ j` -/
+def IsPPTUnambPOVM (sys : Nat) (ρ : Fin k → Matrix (Fin (dA * dB)) (Fin (dA * dB)) ℂ) (p : Fin k → ℝ)
+    (M : Fin (k + 1) → Matrix (Fin (dA * dB)) (Fin (dA * dB)) ℂ) : Prop :=
+  IsPPTPOVM sys M ∧ ∀ i j : Fin k, i ≠ j → (((p j : ℂ) • ρ j) * M i.castSucc).trace = 0
+
+/-- the probability of a conclusive (and then correct) answer -/
+noncomputable def unambSuccessProb (ρ : Fin k → Matrix (Fin (dA * dB)) (Fin (dA * dB)) ℂ) (p : Fin k → ℝ)
+    (M : Fin (k + 1) → Matrix (Fin (dA * dB)) (Fin (dA * dB)) ℂ) : ℝ :=
+  ∑ i : Fin k, p i * (ρ i * M i.castSucc).trace.re
+
+/-- If the unambiguous PPT checker accepts with value `lo`, the candidate is a feasible point of the program
+`ppt_distinguishability(strategy="unambig", primal_dual="primal")` builds and `lo` is exactly its objective value. -/
+theorem checkPPTUnambPrimal_sound (sys : Nat) (ens : Ensemble (dA * dB)) (M LM LT : List (EMat (dA * dB) (dA * dB)))
+    (lo : Rat) (h : checkPPTUnambPrimal sys ens M LM LT = some lo) :
+    M.length = ens.size + 1 ∧
+      IsPPTUnambPOVM sys (ensStates ens) (ensProbs ens) (mats (ens.size + 1) M) ∧
+      unambSuccessProb (ensStates ens) (ensProbs ens) (mats (ens.size + 1) M) = (lo : ℝ) := by
+  unfold checkPPTUnambPrimal at h
+  split at h
+  · next hl =>
+    simp only [Bool.and_eq_true, beq_iff_eq] at hl
+    obtain ⟨h1, -, -⟩ := (lens3Ok_iff _ _ _ _).mp hl.2
+    obtain ⟨hp, hs, ht, hz, hv⟩ := checkPPTUnambPrimalFn_sound _ _ _ _ _ _ _ _ h
+    exact ⟨h1, ⟨⟨⟨hp, hs⟩, ht⟩, hz⟩, hv⟩
+  · exact absurd h (by simp)
+
+/-- **The unambiguous PPT value is at most the minimum-error PPT value**: merging the inconclusive outcome into outcome `0`
+turns every feasible point of the unambiguous program into a PPT measurement that succeeds at least as often. -/
+theorem ppt_unamb_le_min_error (sys : Nat) (hk : 0 < k) (ρ : Fin k → Matrix (Fin (dA * dB)) (Fin (dA * dB)) ℂ)
+    (p : Fin k → ℝ) (hρ : ∀ i, (ρ i).PosSemidef) (hp : ∀ i, 0 ≤ p i)
+    (M : Fin (k + 1) → Matrix (Fin (dA * dB)) (Fin (dA * dB)) ℂ) (hM : IsPPTUnambPOVM sys ρ p M) :
+    ∃ M' : Fin k → Matrix (Fin (dA * dB)) (Fin (dA * dB)) ℂ, IsPPTPOVM sys M' ∧
+      unambSuccessProb ρ p M ≤ successProb ρ p M' := by
+  obtain ⟨M', h1, h2, h3, h4⟩ := unamb_merge hk (pTf sys) (pT_add sys) ρ p (hρ _) (hp _) M hM.1.1.1 hM.1.1.2 hM.1.2
+  exact ⟨M', ⟨⟨h1, h2⟩, h3⟩, h4⟩
+
+/-- Hence every accepted PPT dual certificate also bounds the unambiguous value. -/
+theorem ppt_unamb_le_checked_dual (sys : Nat) (ens : Ensemble (dA * dB)) (Y : EMat (dA * dB) (dA * dB))
+    (Q LQ LS : List (EMat (dA * dB) (dA * dB))) (hi : Rat) (h : checkPPTDual sys ens Y Q LQ LS = some hi)
+    (hk : 0 < ens.size) (hρ : ∀ i, (ensStates ens i).PosSemidef) (hp : ∀ i, 0 ≤ ensProbs ens i)
+    (M : Fin (ens.size + 1) → Matrix (Fin (dA * dB)) (Fin (dA * dB)) ℂ)
+    (hM : IsPPTUnambPOVM sys (ensStates ens) (ensProbs ens) M) :
+    unambSuccessProb (ensStates ens) (ensProbs ens) M ≤ (hi : ℝ) := by
+  obtain ⟨M', hM', hle⟩ := ppt_unamb_le_min_error sys hk _ _ hρ hp M hM
+  exact hle.trans (checkPPTDual_sound sys ens Y Q LQ LS hi h M' hM')
+
+/-- The unambiguous checker accepts a non-trivial exact point: for `|00⟩` (prior `3/4`) and `|+1⟩` (prior `1/4`) on two qubits the
+product operators `M_0 = |0⟩⟨0| ⊗ |0⟩⟨0|`, `M_1 = 1 ⊗ |1⟩⟨1|`, `M_2 = |1⟩⟨1| ⊗ |0⟩⟨0|` identify the states without error with
+probability `3/4 + 1/4 = 1`. -/
+example : checkPPTUnambPrimal 1
+    (⟨[EMat.ofFn fun i j => if i.val = 0 ∧ j.val = 0 then 1 else 0,
+       EMat.ofFn fun i j => if i.val % 2 = 1 ∧ j.val % 2 = 1 then QI.ofRat (1/2) else 0], [3/4, 1/4]⟩ : Ensemble (2 * 2))
+    [EMat.ofFn fun i j => if i.val = 0 ∧ j.val = 0 then 1 else 0,
+     EMat.ofFn fun i j => if i = j ∧ i.val % 2 = 1 then 1 else 0,
+     EMat.ofFn fun i j => if i.val = 2 ∧ j.val = 2 then 1 else 0]
+    [EMat.ofFn fun i j => if i.val = 0 ∧ j.val = 0 then 1 else 0,
+     EMat.ofFn fun i j => if i = j ∧ i.val % 2 = 1 then 1 else 0,
+     EMat.ofFn fun i j => if i.val = 2 ∧ j.val = 2 then 1 else 0]
+    [EMat.ofFn fun i j => if i.val = 0 ∧ j.val = 0 then 1 else 0,
+     EMat.ofFn fun i j => if i = j ∧ i.val % 2 = 1 then 1 else 0,
+     EMat.ofFn fun i j => if i.val = 2 ∧ j.val = 2 then 1 else 0] = some 1 := by decide +kernel
+
+/-! ## Argument handling -/
+
+/-- `ppt_distinguishability` builds the primal program iff `primal_dual == "primal"`; the primal program has one more operator
+iff `strategy != "min_error"` and the zero-overlap constraints iff `strategy == "unambig"`; every other value of `primal_dual`
+selects the dual program, which rejects every strategy but `"min_error"`. -/
+theorem pptDispatch_cases :
+    pptDispatch "primal" "min_error" = .ok (.primal false false) ∧
+      pptDispatch "primal" "unambig" = .ok (.primal true true) ∧
+      pptDispatch "dual" "min_error" = .ok .dual ∧
+      pptDispatch "dual" "unambig" = .error "ValueError" := by
+  decide
+
+/-- A list `dim = [dA, dB]` is taken as it is. -/
+theorem symExtDims_pair (D a b : Nat) : symExtDims D (.pair a b) = .ok (a, b) := rfl
+
+/-- A scalar `dim = d` that divides `dim_xy` denotes the cut `[d, dim_xy / d]` (also for unequal dimensions), whose product is
+`dim_xy`. -/
+theorem symExtDims_scalar (D d : Nat) (hd : 0 < d) (hdiv : d ∣ D) :
+    symExtDims D (.scalar d) = .ok (d, D / d) ∧ d * (D / d) = D := by
+  refine ⟨?_, Nat.mul_div_cancel' hdiv⟩
+  simp [symExtDims, scalarDims, Nat.ne_of_gt hd, Nat.mod_eq_zero_of_dvd hdiv]
+
+/-- A scalar `dim` that does not divide `dim_xy` is rejected (`ValueError`). -/
+theorem symExtDims_scalar_rejects (D d : Nat) (hd : 0 < d) (hdiv : ¬ d ∣ D) :
+    symExtDims D (.scalar d) = .error "ValueError" := by
+  have : D % d ≠ 0 := fun h => hdiv (Nat.dvd_of_mod_eq_zero h)
+  simp [symExtDims, scalarDims, Nat.ne_of_gt hd, this]
+
+/-- An omitted `dim` on a square system `dim_xy = r²` denotes the cut `[r, r]`. -/
+theorem symExtDims_omitted_square (r : Nat) (hr : 0 < r) : symExtDims (r * r) .omitted = .ok (r, r) := by
+  have h1 : roundSqrtN (r * r) = r := by
+    simp [roundSqrtN, Nat.sqrt_eq]
+  simp [symExtDims, h1, scalarDims, Nat.ne_of_gt hr, Nat.mul_div_cancel _ hr]
+
+/-- The extension variables have size `dX · dY^level`, the traced-out copies are `2 … level`, and the transposed subsystems are
+`0` and `2 … level`. -/
+theorem symExt_shape (dx dy level : Nat) :
+    symExtSize dx dy level = dx * dy ^ level ∧ (symExtDimList dx dy level).length = level + 1 ∧
+      (∀ t, t ∈ symExtSysList level ↔ 2 ≤ t ∧ t ≤ level) ∧
+      (∀ t, t ∈ symExtPTList level ↔ t = 0 ∨ (2 ≤ t ∧ t ≤ level)) := by
+  refine ⟨?_, by simp [symExtDimList], fun t => ?_, fun t => ?_⟩
+  · unfold symExtSize symExtDimList
+    have : ∀ (l : Nat) (a : Nat), (List.replicate l dy).foldl (· * ·) a = a * dy ^ l := by
+      intro l
+      induction l with
+      | zero => intro a; simp
+      | succ l ih =>
+        intro a
+        rw [List.replicate_succ, List.foldl_cons, ih, pow_succ]
+        ring
+    rw [List.foldl_cons, this, Nat.one_mul]
+  · simp only [symExtSysList, List.mem_range'_1]
+    omega
+  · simp only [symExtPTList, List.mem_cons, List.mem_map, List.mem_range]
+    constructor
+    · rintro (h | ⟨s, hs, rfl⟩)
+      · exact Or.inl h
+      · exact Or.inr ⟨by omega, by omega⟩
+    · rintro (h | ⟨h1, h2⟩)
+      · exact Or.inl h
+      · exact Or.inr ⟨t - 2, by omega, by omega⟩
+
+/-! ## The mirror model of the hierarchy's constraint expressions (`Toq.PPTDisc.symExtExprs`)
+
+`symExtExprs` composes the mirror models of `partial_trace` (C02), `partial_transpose` (C03) and `symmetric_projection` (C18) exactly as
+`symmetric_extension_hierarchy` composes the library calls; the harness compares its values with the values of the captured cvxpy
+expressions at generic integer points on every run.  Not proved: that these flattened-index expressions are the index-tuple
+constraints of `SymExtAt` (each library call is proved equal to its own specification by the property that owns it). -/
+
+/-- One partial-transpose constraint per transposed subsystem: `level` of them (`X`, and the copies `2 … level`). -/
+theorem symExtExprs_pts_length (dx dy level : Nat) (hl : 1 ≤ level) (meas x : Nat → Nat → Int) :
+    (symExtExprs dx dy level meas x).pts.length = level := by
+  simp only [symExtExprs, symExtPTList, List.length_map, List.length_cons, List.length_range]
+  omega
+
+/-- `1 ⊗ (1 + SWAP)` on `2 ⊗ 2 ⊗ 2` (twice the projector onto `X ⊗ Sym²(Y)`) -/
+private def xSym : Nat → Nat → Int := kronIdLeft 4 (Toq.Combinat.symProjN 2 2)
+private def m3 : Nat → Nat → Int := fun i j => if i = j then 3 else 0
+
+/-- At level 2 on two qubits the point `x = 1 ⊗ (1 + SWAP)`, `meas = 3·1` satisfies both equality constraints of the mirror model
+exactly: the partial trace over the second copy is `3·1`, and `x` is fixed by the symmetric projector on both sides. -/
+example : ((List.range 4).all fun i => (List.range 4).all fun j => (symExtExprs 2 2 2 m3 xSym).traceRes i j == 0) = true ∧
+    ((List.range 8).all fun i => (List.range 8).all fun j => (symExtExprs 2 2 2 m3 xSym).symRes i j == 0) = true := by
+  constructor <;> decide +kernel
 
 end Toq.C12
